@@ -42,6 +42,30 @@ def classify(sc, ob, verdict):
     return None
 
 
+
+def judge_impl(cases, obs):
+    """recover-probed-sibling: the hand-driven source is subscribed once per attempt, so when it pushes, every observer but the
+    one of the current attempt belongs to an attempt that has been given up: it must already be unsubscribed; after the
+    subscriber's own end (terminal delivered or unsubscribe returned) all of them must be."""
+    out = []
+    for i, ((sc, info), ob) in enumerate(zip(cases, obs)):
+        if info.get("k") != "recover-probed-sibling" or ob["out"] != "ok":
+            continue
+        seq_ = [(s, j, alive, ll, cur) for (s, j, idx, alive, ll, cur) in [tuple(int(v) for v in pr) for pr in ob["probes"]] if s >= 1000 and idx == 0]
+        k = 0
+        while k < len(seq_):
+            m = k
+            while m + 1 < len(seq_) and seq_[m + 1][1] == seq_[m][1] + 1:
+                m += 1
+            group = seq_[k:m + 1]      # one push: observers 0..m-k
+            for (s, j, alive, ll, cur) in group[:-1]:
+                if alive:
+                    out.append((i, "the hand-driven source still holds a SUBSCRIBED observer (#%d of %d) of an attempt that was given up when it pushes during action %d" % (j, len(group), cur)))
+                    break
+            k = m + 1
+    return out
+
+
 def ender(rng, p, hot_trigger=None):
     nm = rng.choice(["take", "first", "element_at", "take_while", "contains", "all", "dematerialize", "take_until", "amb", "sequence_equal",
                      "merge_err", "zip_err", "flat_map_err", "retry", "resume", "switch"])
@@ -135,6 +159,61 @@ def generate(rng, tier, focus):
         else:
             q = op(cut[0], cut[1], p)
         cases.append((scn(handles=1, script_=[sub(0, q)]), {"k": "unbounded"}))
+    # a failed attempt whose sibling is a LIVE hot source: retry / retry_when / on_error_resume_next resubscribe from inside the error
+    # handler; the next attempt (a synchronous cold source) runs, and from inside one of its callbacks the subscriber emits into the
+    # hot source: the failed attempt must no longer be listening (its observer left the subject before the next attempt started)
+    for _ in range(2500 if thorough else 400):
+        multi = rng.choice(["merge", "merge", "zip", "amb", "combine_latest"])
+        fail = scen.script([rng.choice(items) for _ in range(rng.randrange(0, 3))], ("e", 5))
+        second = scen.script([rng.choice(items) for _ in range(rng.randrange(1, 4))], rng.choice(["c", ("e", 5), "s"]))
+        ins = [["hot", 0], ["cold", 0]]
+        if rng.random() < 0.3:
+            ins.reverse()
+        inner = scen.multi_op(rng, multi, ins[0], [ins[1]])
+        rec = rng.choice(["retry", "retry", "resume", "retry_when"])
+        if rec == "retry":
+            p = op("retry", [rng.choice([1, 2])], inner)
+        elif rec == "retry_when":
+            if second[-1][0] == "e":
+                second = second[:-1] + [C]      # (the last attempt repeats: an erroring one would be retried for ever)
+            p = op("retry_when", [rng.choice([["always"], ["eq", 5], ["lt", 9]])], inner)
+        else:
+            p = op("on_error_resume_next", [], inner, op("merge", [], ["hot", 0], ["cold", 1]))
+        reacts = [(i, ["emit", 0, n(rng.choice([7, 8]))]) for i in sorted(rng.sample(range(5), rng.choice([1, 1, 2])))]
+        acts = [["emit", 0, n(rng.choice(items))] for _ in range(rng.choice([0, 0, 1]))] + [sub(0, p, *reacts)]
+        acts += [["emit", 0, rng.choice([n(1), n(2), C, e(3)])] for _ in range(rng.randrange(1, 4))]
+        if rng.random() < 0.4:
+            acts.insert(rng.randrange(len(acts) - 1, len(acts) + 1), ["unsub", 0])
+        cases.append((scn(srcs=[src([fail, second], rng.random() < 0.3), src([second], False)], subjects=[["subject"]], handles=1, script_=acts), {"k": "recover-live-sibling"}))
+    # the same with an INSTRUMENTED hot sibling (a hand-driven source that keeps every observer it was handed and records
+    # is_subscribed of each of them when it pushes): the push comes from inside a callback of the next attempt, or from the driver
+    for _ in range(2500 if thorough else 400):
+        multi = rng.choice(["merge", "merge", "zip", "amb", "combine_latest", "flat_map"])
+        fail = scen.script([rng.choice(items) for _ in range(rng.randrange(0, 3))], ("e", 5))
+        second = scen.script([rng.choice(items) for _ in range(rng.randrange(1, 4))], rng.choice(["c", ("e", 5), "s"]))
+        ins = [["manual", 0], ["cold", 0]]
+        if rng.random() < 0.3 and multi != "flat_map":
+            ins.reverse()
+        if multi == "flat_map":      # (the hand-driven source is the outer one: subscribed once per attempt)
+            inner = op("flat_map", [["mod"]], ins[0], ins[1], ["just", 4])
+        else:
+            inner = scen.multi_op(rng, multi, ins[0], [ins[1]])
+        rec = rng.choice(["retry", "retry", "resume", "retry_when"])
+        if rec == "retry":
+            p = op("retry", [rng.choice([1, 2])], inner)
+        elif rec == "retry_when":
+            if second[-1][0] == "e":
+                second = second[:-1] + [C]
+            p = op("retry_when", [rng.choice([["always"], ["eq", 5], ["lt", 9]])], inner)
+        else:
+            p = op("on_error_resume_next", [], inner, op("merge", [], ["manual", 0], ["cold", 1]))
+        p = scen.rand_chain(rng, p, rng.choice([0, 0, 1]), names=["map", "filter", "tap", "skip", "take", "materialize"])
+        reacts = [(i, ["push", 0, n(rng.choice([7, 8]))]) for i in sorted(rng.sample(range(4), rng.choice([1, 1, 2])))]
+        acts = [sub(0, p, *reacts)] + [["push", 0, rng.choice([n(1), n(2), C, e(3)])] for _ in range(rng.randrange(1, 4))]
+        if rng.random() < 0.4:
+            acts.insert(rng.randrange(len(acts) - 1, len(acts) + 1), ["unsub", 0])
+        acts.append(["push", 0, n(9)])
+        cases.append((scn(srcs=[src([fail, second], rng.random() < 0.3), src([second], False)], handles=1, script_=acts), {"k": "recover-probed-sibling"}))
     # hot sources: subjects must not keep the observer
     kinds = [["subject"], ["behavior", 0], ["replay"], ["async"]]
     for _ in range(5000 if thorough else 700):
